@@ -190,6 +190,7 @@ type vfC13pStream struct {
 	proto     protocol.ID
 	inbound   bool
 	attempt   int            // push attempt number on this connection (1-based), 0 if not a push stream
+	openTick  int
 	openGate  *vfC13pGate    // push streams in gated mode
 	writeGate *vfC13pGate
 	passed    int            // 0 at/before the open gate, 1 between the gates, 2 past the write gate / finished
@@ -468,7 +469,7 @@ type vfC13pConnLedger struct {
 	connected, identified, discTick int // ticks (0 = not yet)
 	sup                             bool
 	opens                           []int // tick of every push stream opened on the connection
-	fails                           []int // tick of every failed push attempt
+	fails                           []int // tick at which every failed push attempt had been opened
 	deliv                           []vfC13pDelivery
 }
 
@@ -667,6 +668,7 @@ func (s *vfC13pSys) pushOpen(st *vfC13pStream) string {
 	c.attempts++
 	st.attempt = c.attempts
 	l.opens = append(l.opens, s.tick)
+	st.openTick = s.tick
 	// (gated mode only: without gates a round that listed the connection earlier may legitimately get here late)
 	if s.gated && l.identified > 0 && !l.sup {
 		s.mm = append(s.mm, vfC13pMM{"push-to-unsupporting-peer", "a push stream was opened on " + c.name + " after the peer was identified as not supporting identify push", nil, nil})
@@ -718,7 +720,7 @@ func (s *vfC13pSys) pushEnded(st *vfC13pStream, failed bool) {
 	s.inflight--
 	if failed {
 		l := s.led[st.c.name]
-		l.fails = append(l.fails, s.tick)
+		l.fails = append(l.fails, st.openTick)
 		s.trace.Emit("fail", "c", st.c.name, "n", st.attempt)
 	}
 	st.c.mu.Lock()
@@ -1259,4 +1261,170 @@ func (s *vfC13pSys) finish() []vfC13pMM {
 	s.ps.Close()
 	synctest.Wait()
 	return mm
+}
+
+// ---------------------------------------------------------------------------------------------
+
+func TestVerifC13pReplay(t *testing.T) {
+	res := vfh.NewResult()
+	defer func() {
+		if err := res.Write(); err != nil {
+			t.Fatal(err)
+		}
+	}()
+	vfC13pInit(4)
+	files, _ := filepath.Glob(filepath.Join(vfh.In(), "*.jsonl"))
+	if len(files) == 0 {
+		t.Fatalf("no behaviour files in %q", vfh.In())
+	}
+	res.Rule = "one case = one (instance, source state, action) transition of the printed C13_Push graph executed on the real idService through the gates; stable model states are compared (L2), the statement-level monitors read the decoded identify messages per connection (L1); every walk ends with the at-rest clauses"
+	shards := vfh.EnvInt("VERIF_C13P_SHARDS", 6)
+	t.Run("g", func(t *testing.T) {
+		for _, f := range files {
+			hdr, walks, err := vfh.LoadWalks(f)
+			if err != nil {
+				t.Fatalf("%s: %v", f, err)
+			}
+			inst, _ := hdr["name"].(string)
+			var names []string
+			if conf, ok := hdr["conf"].(map[string]any); ok {
+				for _, c := range conf["conns"].([]any) {
+					names = append(names, c.(string))
+				}
+				if mc := int(conf["maxConc"].(float64)); mc < len(names) {
+					t.Fatalf("%s: the replayed instance must not block on the semaphore (MaxConc %d < %d connections)", inst, mc, len(names))
+				}
+			}
+			sort.Strings(names)
+			for sh := 0; sh < shards; sh++ {
+				t.Run(fmt.Sprintf("%s-%d", inst, sh), func(t *testing.T) {
+					t.Parallel()
+					for wi, w := range walks {
+						if wi%shards != sh {
+							continue
+						}
+						synctest.Test(t, func(t *testing.T) { vfC13pWalk(t, res, inst, names, w) })
+					}
+				})
+			}
+		}
+	})
+}
+
+func vfC13pWalk(t *testing.T, res *vfh.Result, inst string, names []string, w vfh.Walk) {
+	seed := vfh.Seed()*1000003 + int64(w.Walk)
+	withRec := (seed/7)%2 == 0
+	sys, err := vfC13pNew(true, seed, withRec)
+	if err != nil {
+		t.Fatal(err)
+	}
+	synctest.Wait()
+	var prefix []vfh.Op
+	report := func(i int, m vfC13pMM) {
+		res.AddMismatch(vfh.Mismatch{Class: m.Class, What: m.What, Walk: w.Walk, Step: i, Expected: m.Exp, Got: m.Got,
+			Prefix: append([]vfh.Op{}, prefix...), Cfg: map[string]any{"instance": inst, "host_has_record_from_start": withRec}})
+	}
+	// a new signed record cannot be taken back: fresh changes may be record changes only after the last revert
+	lastRevert := -1
+	for i, stp := range w.Steps {
+		if stp.Op.Name() == "change" && stp.Op.S("kind") == "revert" {
+			lastRevert = i
+		}
+	}
+	prevKey := string(w.Init)
+	degraded := false
+	for i, stp := range w.Steps {
+		prefix = append(prefix, stp.Op)
+		mm, err := sys.apply(stp.Op, i > lastRevert, names)
+		if err != nil {
+			t.Fatalf("%s walk %d step %d: %v", inst, w.Walk, i, err)
+		}
+		var st vfC13pSt
+		if err := json.Unmarshal(stp.State, &st); err != nil {
+			t.Fatal(err)
+		}
+		if !degraded {
+			res.Case(inst + "|" + prevKey + "|" + vfh.Canon(stp.Op))
+			if st.Stable {
+				mm = append(mm, sys.check(&st)...)
+			}
+		}
+		prevKey = string(stp.State)
+		res.Count(0, 1)
+		for _, m := range mm {
+			l2 := strings.HasPrefix(m.Class, "L2:")
+			if degraded && l2 {
+				continue
+			}
+			report(i, m)
+			degraded = degraded || l2
+		}
+	}
+	for _, m := range sys.finish() {
+		report(len(w.Steps), m)
+	}
+	res.Count(1, 0)
+	sys.mu.Lock()
+	res.Inc("push_deliveries", func() int {
+		n := 0
+		for _, l := range sys.led {
+			n += len(l.deliv)
+		}
+		return n
+	}())
+	sys.mu.Unlock()
+	if w.Walk == 0 && len(w.Steps) > 0 {
+		k := len(w.Steps)
+		if k > 6 {
+			k = 6
+		}
+		res.Sample(map[string]any{"instance": inst, "first_steps": w.Steps[:k]})
+	}
+}
+
+// ---------------------------------------------------------------------------------------------
+// free runs: no gates; every push attempt takes scripted virtual-time delays and outcomes
+
+type vfC13pFreeScript struct {
+	seed     int64
+	failPct  int           // chance of a failure per phase, in percent
+	maxDelay time.Duration // upper bound of the delay per phase
+	hold     chan struct{} // if non-nil every attempt waits here at its open phase (concurrency-limit scenario)
+}
+
+func (f *vfC13pFreeScript) draw(c *vfC13pConn, st *vfC13pStream, phase int64) *mrand.Rand {
+	return mrand.New(mrand.NewSource(f.seed*7919 + int64(c.idx)*104729 + int64(st.attempt)*1299709 + phase))
+}
+
+func (f *vfC13pFreeScript) open(c *vfC13pConn, st *vfC13pStream) string {
+	if f.hold != nil {
+		<-f.hold
+		return "ok"
+	}
+	r := f.draw(c, st, 1)
+	if f.maxDelay > 0 {
+		time.Sleep(time.Duration(r.Int63n(int64(f.maxDelay))))
+	}
+	if r.Intn(100) < f.failPct {
+		return []string{"setproto", "refuse"}[r.Intn(2)]
+	}
+	return "ok"
+}
+
+func (f *vfC13pFreeScript) write(c *vfC13pConn, st *vfC13pStream) string {
+	if f.hold != nil {
+		return "ok"
+	}
+	r := f.draw(c, st, 2)
+	if f.maxDelay > 0 {
+		time.Sleep(time.Duration(r.Int63n(int64(f.maxDelay))))
+	}
+	how := "ok"
+	if r.Intn(100) < f.failPct {
+		how = []string{"reset", "scope"}[r.Intn(2)]
+	}
+	if how == "scope" {
+		c.sys.pushEnded(st, true)
+	}
+	return how
 }
